@@ -71,9 +71,25 @@ def dense_canon(y):
     return [[int(v) for v in r] for r in np.asarray(y.to_numpy()).reshape(len(y), -1)]
 
 
+APPROX = {"on": False}
+
+
 def scores_canon(y):
     a = np.asarray(y.to_numpy() if hasattr(y, "to_numpy") else y, dtype=float)
+    if APPROX["on"]:       # large-magnitude data: int64 and float64 prefix sums round differently in the last bits; compare with a relative tolerance
+        return ApproxList([float(v) for v in a.reshape(-1)])
     return [float(v).hex() for v in a.reshape(-1)]
+
+
+class ApproxList(list):
+    def __eq__(self, other):
+        if not isinstance(other, list) or len(other) != len(self):
+            return False
+        a, b = np.asarray(self, dtype=float), np.asarray(other, dtype=float)
+        return bool(np.all(np.abs(a - b) <= 1e-9 * (np.abs(a) + np.abs(b)) + 1e-300))
+
+    def __ne__(self, other):
+        return not self.__eq__(other)
 
 
 def run(ctx):
@@ -85,8 +101,10 @@ def run(ctx):
     rng = ctx.rng
     cases, meta = [], []
 
-    def data(n, p):
+    def data(n, p, big=False):
         v = np.asarray([[rng.randint(-3, 3) for _ in range(p)] for _ in range(n)], dtype=float)
+        if big:
+            v = v * 1.0e7 + 5.0e7            # exactly representable in int64 and float64; squares of partial sums overflow int64
         a = rng.randint(6, n - 14)
         v[a:a + 6] += 9
         v[a + 9, 0] -= 12
@@ -110,10 +128,11 @@ def run(ctx):
         return same
 
     reps = 1 if ctx.quick() else 3
-    for rep_i in range(reps):
+    for rep_i in range(reps + 1):
         for p in (1, 2):
-            n = rng.randint(36, 50)
-            vals = data(n, p)
+            n = rng.randint(36, 50) if rep_i < reps else 120
+            vals = data(n, p, big=(rep_i == reps))
+            APPROX["on"] = (rep_i == reps)
             half = n // 2
             inp0 = {"n": n, "p": p, "values": vals.tolist()}
             dets = [("PELT", lambda: PELT(min_segment_length=2)), ("MovingWindow", lambda: MovingWindow(bandwidth=4)),
@@ -132,7 +151,10 @@ def run(ctx):
                     want_index = make_index(rp[2], n) if rp[0] in ("DataFrame", "Series") else pd.RangeIndex(n)
                     res = {"predict": pr, "transform": (dense_canon(tr), bool(tr.index.equals(want_index)))}
                     try:
-                        res["transform_scores"] = scores_canon(d.transform_scores(X))
+                        sc_ = d.transform_scores(X)
+                        # per-sample scores are a dense output: they must carry the input's own index
+                        ix_ok = (not hasattr(sc_, "index")) or len(sc_) != n or bool(sc_.index.equals(want_index))
+                        res["transform_scores"] = (scores_canon(sc_), ix_ok)
                     except NotImplementedError:
                         res["transform_scores"] = "n/a"
                     return res
